@@ -473,7 +473,30 @@ def reply_words(P, R, rule='C04.WIRE.2'):
     R.floor(rule, 6, 'arguments of the reply slots')
 
 
+def reply_arms_silent(P, R, rule='C04.WMC.6'):
+    """"Every other reply produces no output": the core's handlers of the X and x messages only pass the words on to the
+    modules' reply slots; they call nothing that can reach the sender themselves - a malformed or truncated reply line is
+    dropped in silence, not reported to the operators."""
+    rd, disp = core.reader_dispatch(P)
+    em = core.emitters(P)
+    n = 0
+    for s, h, vs in disp:
+        if not (set(vs or ()) & {ord('X'), ord('x')}):
+            continue
+        for t in h.calls():
+            if not t.ev.get('callee'):
+                continue        # the slot broadcast: judged by the rules on the modules' handlers
+            loud = [g for g in P.callees(t, False) if g.key in em]
+            if loud:
+                n += 1
+                R.ob(rule, False, t, '%s (the core\'s handler of %s) calls %s, which can write to the server channel' % (h.name, '/'.join(sorted(chr(v) for v in vs)), loud[0].name), key='reply-arm-loud:%s' % h.name)
+        n += 1
+        R.ob(rule, True, h, '%s was searched for direct calls that reach the sender' % h.name, key='reply-arm:%s' % h.name, nontrivial=False)
+    R.floor(rule, 2, 'core handlers of the X and x messages')
+
+
 def run(P, R, tier):
+    reply_arms_silent(P, R)
     r, sepch, idv, serv = tag_tables(P, R)
     canonical = validated_return(P, R, r, sepch, idv, serv)
     cl = lookup_discipline(P, R)
